@@ -1,6 +1,6 @@
 """C05 (pp): binary polynomials vs GF(2)[x]-as-int."""
 from harness import Test, Sweep, Fail, st
-from gens import int_spec, resolve
+from gens import expand, int_spec, resolve
 import pyref.gf2x as G
 from props.c05 import stack, wbuf, rint, chk, CFG_Q
 
@@ -218,7 +218,28 @@ def run_minpoly(ctx, c):
     x = ctx.x
     W = x.W
     l = c["l"]
-    bits = c["bits"][:2 * l] + [0] * (2 * l - len(c["bits"]))
+    mode = c.get("mode", "list")
+    if mode == "list":
+        bits = c["bits"][:2 * l] + [0] * (2 * l - len(c["bits"]))
+    else:
+        raw = int.from_bytes(expand(c["seed"], (2 * l + 7) // 8 + 8), "little")
+        bits = [(raw >> i) & 1 for i in range(2 * l)]
+        if mode == "zeros":
+            # a long run of zeros in front (large degree drops in the Euclidean sequence: quotients of several words)
+            z = c["z"] % (2 * l)
+            bits = [0] * z + [1] + bits[z + 1:]
+        elif mode == "lfsr":
+            # a linear recurring sequence with a generator of degree d <= l (sparse or dense), from a generated initial state
+            d = 1 + c["z"] % l
+            g = (raw >> 7) % (1 << d) | (1 << d) | 1
+            if c["z"] % 3 == 0:
+                g = (1 << d) | (1 << (c["z"] % d)) | 1
+            state = bits[:d] if any(bits[:d]) else [1] + [0] * (d - 1)
+            seq = list(state)
+            taps = [i for i in range(d) if (g >> i) & 1]
+            for i in range(d, 2 * l):
+                seq.append(sum(seq[i - d + t] for t in taps) & 1)
+            bits = seq
     # a: bit 2l-1 is the first element
     a = 0
     for i, bt in enumerate(bits):
@@ -230,15 +251,18 @@ def run_minpoly(ctx, c):
     x.call("ppMinPoly", Bo, wbuf(x, a, na), l, stack(x, "ppMinPoly_deep", l), ret="v")
     got = rint(Bo)
     exp = G.minpoly_seq(bits)
-    ctx.cls("l%d" % min(l // 16, 4))
-    ctx.nontrivial("minpoly", l, G.deg(exp))
+    ctx.cls("l%d" % min(l // 16, 8), "minpoly_" + mode)
+    ctx.nontrivial("minpoly", l, G.deg(exp), mode)
     # the minimal polynomial is unique when its degree <= l (sequence of length 2l)
     if G.deg(exp) <= l:
-        chk("ppMinPoly", got, exp)
+        chk("ppMinPoly(l=%d, %s)" % (l, mode), got, exp)
     ctx.sample(c)
 
 
-S_MINPOLY = st.fixed_dictionaries({"l": st.integers(1, 70), "bits": st.lists(st.integers(0, 1), max_size=140)})
+S_MINPOLY = st.one_of(
+    st.fixed_dictionaries({"l": st.integers(1, 70), "bits": st.lists(st.integers(0, 1), max_size=140)}),
+    st.fixed_dictionaries({"l": st.one_of(st.integers(1, 300), st.sampled_from([63, 64, 65, 127, 128, 129, 192, 256])), "mode": st.sampled_from(["rnd", "zeros", "zeros", "lfsr", "lfsr"]),
+                           "seed": st.binary(min_size=1, max_size=3).map(bytes.hex), "z": st.integers(0, 100000)}))
 
 
 def replay_override(ctx, test, case):
